@@ -17,14 +17,23 @@ from lib import evidence, goenv, graph, tlc
 from lib.common import MachineryError, classify_mismatches, log
 
 PKG = "./p2p/transport/webtransport"
+
+
+def _fast_unescape(s, _slow=tlc._unescape):
+    # TLC escapes only \" and \\ ; without a literal backslash a C-level replace does the job (the generic
+    # routine of lib/tlc.py costs ~65 us per printed edge)
+    return s.replace('\\"', '"') if "\\\\" not in s else _slow(s)
+
+
+tlc._unescape = _fast_unescape
 INV = "INVARIANTS TypeOK ValidNow Short Advertised NextServedNext LearnedKeepsVerifying Deterministic"
 
 
 def small_instances(ctx):
     """(name, K, VU): all offsets 0..V-1, starts StartLo..StartLo+2V, deltas 1..2W+K+1."""
-    out = [("k1v3", 1, 3), ("k1v4", 1, 4), ("k2v4", 2, 4), ("k1v7", 1, 7), ("k3v5", 3, 5)]
+    out = [("k1v3", 1, 3), ("k1v4", 1, 4), ("k2v4", 2, 4), ("k1v7", 1, 7), ("k3v5", 3, 5), ("k3v6", 3, 6)]
     if ctx.tier == "thorough":
-        out += [("k3v6", 3, 6), ("k2v9", 2, 9), ("k1v16", 1, 16), ("k4v5", 4, 5)]
+        out += [("k2v9", 2, 9), ("k1v16", 1, 16), ("k4v5", 4, 5), ("k3v8", 3, 8)]
     return out
 
 
@@ -63,12 +72,12 @@ def replay_consts(ctx):
     # offset classes in skews: 0, 1, just below / at / above the bucket width (the offset is taken modulo the
     # validity, which is two skews longer than a bucket), the last one, the middle
     offs = {0, 1, 167, W // K - 1, W // K, VU - 1}
-    while len(offs) < (14 if thorough else 8):
+    while len(offs) < (24 if thorough else 12):
         offs.add(rnd.randrange(VU))
     # positions (ticks after a bucket start p): p-1ms..p+1ms, the switch instant p+skew (-1ms, +1ms), the
     # predecessor's NotAfter p+2*skew (-1ms, +1ms), the middle, and seed-dependent ones
     rel = {W - 1, 0, 1, K - 1, K, K + 1, 2 * K - 1, 2 * K, 2 * K + 1, W // 2}
-    while len(rel) < (16 if thorough else 12):
+    while len(rel) < (20 if thorough else 14):
         rel.add(rnd.randrange(W))
     start_lo = 2 * V
     consts = {"K": K, "VU": VU, "MaxLifeU": 336, "StartLo": start_lo, "MaxT": start_lo + (5 if thorough else 4) * W + 2 * K,
